@@ -138,14 +138,13 @@ def _state_contract(name):
             clone = c.call(cls, **state)
             c.ensures("reload-rebuilds-the-same-state", _same(c, clone._dict, state))
             c.ensures("library-equality-holds", bool(clone == obj) if not c.symbolic else _same(c, clone._dict, obj._dict))
+            # the YAML text layer is PyYAML's: evaluated on native runs only (reported as bounded, not proved)
+            text = back = None
             if not c.symbolic:
                 text = yaml.dump(obj)
                 back = yaml.load(text, Loader=yaml.FullLoader)
-                c.ensures("yaml-text-reloads-to-the-same-state", _same(c, back._dict, state))
-                c.ensures("yaml-text-identical-after-reload", yaml.dump(back) == text)
-            else:
-                c.ensures("yaml-text-reloads-to-the-same-state", True)
-                c.ensures("yaml-text-identical-after-reload", True)
+            c.native_ensures("yaml-text-reloads-to-the-same-state", lambda: _same(c, back._dict, state))
+            c.native_ensures("yaml-text-identical-after-reload", lambda: yaml.dump(back) == text)
     body.__doc__ = "%s: every constructor argument is kept as state, and cls(**state) rebuilds an equal object (same state, idempotent)" % name
     return body
 
@@ -180,12 +179,11 @@ def explicit_none(c):
         clone = c.call(cls, **obj._dict)
     c.ensures("attribute-is-none", getattr(obj, par) is None)
     c.ensures("none-after-reload", getattr(clone, par) is None, detail=label)
+    back = None
     if not c.symbolic:
         with deployed():
             back = yaml.load(yaml.dump(obj), Loader=yaml.FullLoader)
-        c.ensures("none-after-yaml-text", getattr(back, par) is None, detail=label)
-    else:
-        c.ensures("none-after-yaml-text", getattr(clone, par) is None)
+    c.native_ensures("none-after-yaml-text", lambda: getattr(back, par) is None, detail=label)
 
 
 @contract("C15", "nested_and_derived", [HO + "HoloPyObject._iteritems", HO + "HoloPyObject.from_yaml"],
@@ -222,32 +220,64 @@ def nested_and_derived(c):
                                           obj.guess if which != "complex-of-priors" else obj.guess.real))
 
 
-@contract("C15", "model_reload", ["holopy.inference.model:Model._iteritems", "holopy.inference.model:Model.from_yaml"])
+@contract("C15", "model_reload", ["holopy.inference.model:Model._iteritems", "holopy.inference.model:Model.from_yaml",
+                                  "holopy.inference.model:Model.add_tie", "holopy.core.mapping:Mapper.map_xarray"], max_paths=60)
 def model_reload(c):
-    """a model rebuilt from its saved fields (dummy scatterer, theory, parameters, names, maps) has the same parameter names, ties
-    and value-to-place mapping as the original"""
+    """a model rebuilt from its saved fields (dummy scatterer, theory, parameters, names, maps) - and, natively, from its YAML text -
+    has the same parameter names, ties and value-to-place mapping as the original: collections with shared priors and a theory
+    parameter, ties between theory parameters (with a new name), per-channel optics given as labelled arrays"""
     from contracts.common import AbstractPointTheory
+    from holopy.scattering.theory.mielens import AberratedMieLens
+    import xarray as xr
+    kind = c.choice("model", ["collection with a shared prior and a theory parameter", "tie between theory parameters",
+                              "per-channel optics as labelled arrays"])
     shared = Uniform(0.1, 1.0, name='radius')
-    sph = Spheres([Sphere(n=Uniform(1.2, 2.0), r=shared, center=(Uniform(-1, 1), 0.5, 5.0)),
-                   Sphere(n=1.5, r=shared, center=(3.0, Gaussian(0.0, 0.1), 5.0))], warn=False)
-    theory = MieLens(lens_angle=Uniform(0.2, 1.2))
-    model = AlphaModel(sph, alpha=Uniform(0.5, 1.0), theory=theory, noise_sd=0.1, medium_index=1.33,
-                       illum_wavelen={'red': 0.66, 'green': 0.52} if False else 0.66, illum_polarization=(1, 0),
-                       constraints=[LimitOverlaps(0.2)])
+    if kind == "collection with a shared prior and a theory parameter":
+        sph = Spheres([Sphere(n=Uniform(1.2, 2.0), r=shared, center=(Uniform(-1, 1), 0.5, 5.0)),
+                       Sphere(n=1.5, r=shared, center=(3.0, Gaussian(0.0, 0.1), 5.0))], warn=False)
+        model = AlphaModel(sph, alpha=Uniform(0.5, 1.0), theory=MieLens(lens_angle=Uniform(0.2, 1.2)), noise_sd=0.1, medium_index=1.33,
+                           illum_wavelen=0.66, illum_polarization=(1, 0), constraints=[LimitOverlaps(0.2)])
+    elif kind == "tie between theory parameters":
+        sph = Sphere(n=Uniform(1.2, 2.0), r=shared, center=(Uniform(-1, 1), 0.5, 5.0))
+        model = AlphaModel(sph, alpha=Uniform(0.5, 1.0), theory=AberratedMieLens(spherical_aberration=Uniform(0.2, 1.2), lens_angle=Uniform(0.2, 1.2)),
+                           noise_sd=0.1, medium_index=1.33, illum_wavelen=0.66, illum_polarization=(1, 0))
+        model.add_tie(['spherical_aberration', 'lens_angle'], new_name='lens')
+    else:
+        sph = Sphere(n=Uniform(1.2, 2.0), r=shared, center=(Uniform(-1, 1), 0.5, 5.0))
+        wl = xr.DataArray(np.array([Uniform(0.6, 0.7), 0.52], dtype=object), dims=['illumination'], coords={'illumination': ['red', 'green']})
+        model = AlphaModel(sph, alpha=Uniform(0.5, 1.0), theory=MieLens(lens_angle=0.9), noise_sd=0.1, medium_index=1.33,
+                           illum_wavelen=wl, illum_polarization=(1, 0))
     fields = dict(model._iteritems())
 
     class FakeLoader:
         def construct_mapping(self, node, deep=True):
             return dict(node)
     again = c.call(AlphaModel.from_yaml, FakeLoader(), fields)
-    c.ensures("parameter-names", again._parameter_names == model._parameter_names)
-    c.ensures("parameters-equal", len(again._parameters) == len(model._parameters)
-              and all(a == b for a, b in zip(again._parameters, model._parameters)))
-    c.ensures("maps-equal", again._maps == model._maps)
+    candidates = [("rebuilt from the saved fields", again)]
+    if not c.symbolic:
+        text = yaml.dump(model)
+        candidates.append(("reloaded from the YAML text", yaml.load(text, Loader=yaml.FullLoader)))
     vals = [c.real("v%d" % k, nonneg=True, sample=(0.3, 0.9)) for k in range(len(model._parameters))]
-    a, b = c.call(again.scatterer_from_parameters, vals), c.call(model.scatterer_from_parameters, vals)
-    for sa, sb in zip(a.scatterers, b.scatterers):
-        c.ensures("same-value-to-place-mapping", c.and_(c.eq(sa.n, sb.n), c.eq(sa.r, sb.r),
-                                                        c.eq(np.array(sa.center, dtype=object), np.array(sb.center, dtype=object))))
-    c.ensures("tie-kept", c.eq(a.scatterers[0].r, a.scatterers[1].r))
-    c.ensures("theory-parameter-kept", c.eq(again.theory_from_parameters(vals).lens_angle, model.theory_from_parameters(vals).lens_angle))
+    b = c.call(model.scatterer_from_parameters, vals)
+    members = (lambda s: s.scatterers if hasattr(s, 'scatterers') else [s])
+    for label, other in candidates:
+        c.ensures("parameter-names", other._parameter_names == model._parameter_names, detail=label)
+        c.ensures("parameters-equal", len(other._parameters) == len(model._parameters)
+                  and all(x == y for x, y in zip(other._parameters, model._parameters)), detail=label)
+        c.ensures("maps-equal", other._maps == model._maps, detail=label)
+        a = c.call(other.scatterer_from_parameters, vals)
+        for sa, sb in zip(members(a), members(b)):
+            c.ensures("same-value-to-place-mapping", c.and_(c.eq(sa.n, sb.n), c.eq(sa.r, sb.r),
+                                                            c.eq(np.array(sa.center, dtype=object), np.array(sb.center, dtype=object))), detail=label)
+        if kind == "collection with a shared prior and a theory parameter":
+            c.ensures("tie-kept", c.eq(a.scatterers[0].r, a.scatterers[1].r), detail=label)
+        ta, tb = other.theory_from_parameters(vals), model.theory_from_parameters(vals)
+        c.ensures("theory-parameter-kept", c.eq(ta.lens_angle, tb.lens_angle), detail=label)
+        if kind == "tie between theory parameters":
+            c.ensures("theory-tie-and-its-name-kept", c.and_('lens' in other._parameter_names, c.eq(ta.spherical_aberration, ta.lens_angle),
+                                                           c.eq(ta.spherical_aberration, tb.spherical_aberration)), detail=label)
+        if kind == "per-channel optics as labelled arrays":
+            oa, ob = other._find_optics(vals, None)['illum_wavelen'], model._find_optics(vals, None)['illum_wavelen']
+            c.ensures("per-channel-optics-kept", c.and_(list(oa.illumination.values) == list(ob.illumination.values),
+                                                        *[c.eq(oa.sel(illumination=k).item(), ob.sel(illumination=k).item()) for k in ('red', 'green')]),
+                      detail=label)
